@@ -664,10 +664,13 @@ async fn early_search(net: Net, seed: u64) {
     if seed % 3 != 0 {
         let (d2, p2, n2) = (dht.clone(), polling.clone(), net.clone());
         tokio::task::spawn_local(async move {
-            while p2.load(std::sync::atomic::Ordering::Relaxed) {
-                if tokio::time::timeout(std::time::Duration::from_secs(10), d2.get_state()).await.ok().flatten().is_none() {
-                    n2.log(json!({"ev":"ApiState","node":addr_json(&me),"alive":false}));
-                    break;
+            'poll: while p2.load(std::sync::atomic::Ordering::Relaxed) {
+                // twice per instant, back to back: the second query is sent as soon as the first is answered, ahead of whatever the first one's handling woke up
+                for _ in 0..1 {
+                    if tokio::time::timeout(std::time::Duration::from_secs(10), d2.get_state()).await.ok().flatten().is_none() {
+                        n2.log(json!({"ev":"ApiState","node":addr_json(&me),"alive":false}));
+                        break 'poll;
+                    }
                 }
                 sleep_ms(1).await;
             }
